@@ -13,7 +13,9 @@ package vrt
 
 import (
 	"fmt"
+	"runtime"
 	"runtime/debug"
+	"sort"
 	"strings"
 	"sync"
 )
@@ -38,6 +40,7 @@ type Thread struct {
 	// evaluated by whichever thread happens to run the scheduler.
 	can   Waiter
 	what  string // description of the pending operation (for deadlock reports)
+	pc    uint64 // hash of the call stack at the pending operation (stateful exploration: the thread's continuation)
 	steps int
 	Panic string // recovered panic of the thread body, if any
 }
@@ -89,6 +92,14 @@ type Exec struct {
 	QuickMode bool // drop scheduling points before pure releases
 	objSeq    int
 	stamp     int
+
+	// Stateful exploration (optional): KeyFn renders the shared state the harness cares about,
+	// Visited is asked at every scheduling point beyond the replayed prefix whether the global state
+	// (threads' continuations + timers + KeyFn) was seen before; if so the execution is cut (Pruned).
+	KeyFn   func() string
+	Visited func(key string) bool
+	Pruned  bool
+	LastKey string
 }
 
 var theExec Exec
@@ -233,6 +244,16 @@ func (x *Exec) yield(t *Thread) {
 			x.park(t)
 			continue
 		}
+		if x.Visited != nil && x.np >= len(x.prefix) {
+			k := x.stateKey()
+			x.LastKey = k
+			if x.Visited(k) {
+				x.Pruned = true
+				x.finishPruned()
+				x.park(t)
+				continue
+			}
+		}
 		next := x.pick()
 		if next < 0 {
 			if x.fireNextTimer() {
@@ -300,6 +321,17 @@ func (x *Exec) finish() {
 	x.done <- struct{}{} // visible: orders every thread's writes before the controller's reads
 }
 
+// finishPruned ends the execution because its global state was visited before (not a deadlock).
+//
+//go:norace
+func (x *Exec) finishPruned() {
+	if x.aborting {
+		return
+	}
+	x.aborting = true
+	x.done <- struct{}{}
+}
+
 // exit is called when a thread's body has returned.
 //
 //go:norace
@@ -350,7 +382,60 @@ func Sched(what string) {
 	t.can = nil
 	t.what = what
 	x.OpCount[t.ID]++
+	if x.Visited != nil {
+		t.pc = stackHash()
+	}
 	x.yield(t)
+}
+
+// stackHash identifies the continuation of the calling thread by its return addresses.
+//
+//go:norace
+func stackHash() uint64 {
+	var pcs [24]uintptr
+	n := runtime.Callers(3, pcs[:])
+	h := uint64(1469598103934665603)
+	for _, pc := range pcs[:n] {
+		h = (h ^ uint64(pc)) * 1099511628211
+	}
+	return h
+}
+
+// stateKey renders the global state for stateful exploration.
+//
+//go:norace
+func (x *Exec) stateKey() string {
+	var sb strings.Builder
+	// live threads in creation order (finished ones, and with them the ids, do not matter: a timer
+	// callback that has run and gone leaves the same state behind whichever id it had)
+	live := 0
+	for i := 0; i < x.nthr; i++ {
+		t := &x.threads[i]
+		if t.status != 1 {
+			continue
+		}
+		mark := ""
+		if i == x.cur {
+			mark = "*"
+		}
+		fmt.Fprintf(&sb, "%s%s@%x/%t;", mark, t.what, t.pc, t.can == nil || t.can.Ready())
+		live++
+	}
+	sb.WriteString("|timers:")
+	var ts []string
+	for i := 0; i < x.ntimer; i++ {
+		tm := &x.timers[i]
+		if tm.active {
+			ts = append(ts, fmt.Sprintf("%s+%d/%d", tm.name, tm.when-x.clock, tm.period))
+		}
+	}
+	sort.Strings(ts)
+	sb.WriteString(strings.Join(ts, ","))
+	sb.WriteString("|")
+	if x.KeyFn != nil {
+		sb.WriteString(x.KeyFn())
+	}
+	return sb.String()
 }
 
 // Wait is a scheduling point before an operation that may block: the thread
@@ -366,6 +451,9 @@ func Wait(what string, can Waiter) {
 	t.can = can
 	t.what = what
 	x.OpCount[t.ID]++
+	if x.Visited != nil {
+		t.pc = stackHash()
+	}
 	x.yield(t)
 }
 
@@ -414,12 +502,23 @@ func GoNamed(name string, daemon bool, f func()) {
 	if x.aborting {
 		return
 	}
-	if x.nthr >= MaxThreads {
-		x.Overflow = true
-		return
-	}
 	id := x.nthr
-	x.nthr++
+	if x.nthr >= MaxThreads {
+		// reuse the slot of a finished thread (long stateful explorations spawn many timer callbacks)
+		id = -1
+		for i := 1; i < x.nthr; i++ {
+			if x.threads[i].status == 2 {
+				id = i
+				break
+			}
+		}
+		if id < 0 {
+			x.Overflow = true
+			return
+		}
+	} else {
+		x.nthr++
+	}
 	t := &x.threads[id]
 	*t = Thread{ID: id, Name: name, Daemon: daemon, wake: make(chan struct{}, 1), status: 1}
 	if t.Name == "" {
@@ -520,6 +619,22 @@ func trimStack(b []byte) string {
 	return strings.Join(out, " | ")
 }
 
+// pendingKeyFn / pendingVisited are installed into the next execution (set by the stateful explorer).
+var (
+	pendingKeyFn   func() string
+	pendingVisited func(string) bool
+)
+
+// SetKeyFn lets the body of a stateful exploration provide the rendering of the shared state it
+// cares about (called from inside the execution, typically first thing in the body).
+//
+//go:norace
+func SetKeyFn(f func() string) {
+	if x := X; x != nil {
+		x.KeyFn = f
+	}
+}
+
 // Run performs one execution of body under the choice prefix and returns it for inspection.
 func Run(prefix []int, horizon int, quick bool, body func()) *Exec {
 	x := &theExec // reused: the arrays are large; only counters are reset
@@ -534,6 +649,8 @@ func Run(prefix []int, horizon int, quick bool, body func()) *Exec {
 	x.prefix, x.Horizon, x.QuickMode = prefix, horizon, quick
 	x.done = make(chan struct{}, 1)
 	x.objSeq, x.stamp = 0, 0
+	x.Pruned, x.LastKey = false, ""
+	x.KeyFn, x.Visited = pendingKeyFn, pendingVisited
 	X = x
 	t := &x.threads[0]
 	*t = Thread{ID: 0, Name: "main", wake: make(chan struct{}, 1), status: 1}
@@ -592,4 +709,32 @@ func WaitIdle() {
 func ThreadDone(id int) bool {
 	x := X
 	return x != nil && id < x.nthr && x.threads[id].status == 2
+}
+
+// ThreadParked reports whether thread id is live and blocked (its pending operation cannot proceed).
+//
+//go:norace
+func ThreadParked(id int) bool {
+	x := X
+	if x == nil || id >= x.nthr {
+		return false
+	}
+	t := &x.threads[id]
+	return t.status == 1 && t.can != nil && !t.can.Ready()
+}
+
+// LiveThreads is the number of threads that have not finished.
+//
+//go:norace
+func LiveThreads() int {
+	x := X
+	n := 0
+	if x != nil {
+		for i := 0; i < x.nthr; i++ {
+			if x.threads[i].status == 1 {
+				n++
+			}
+		}
+	}
+	return n
 }
